@@ -140,6 +140,7 @@ def matches(ref, name):
 
 
 SCRIPTS = [
+    (12, [("none", "none"), ("change_data", "disable"), ("change_data", "report"), ("change_data", "disable")]),  # -new files left by a session must not survive the start of the next one, whatever its mode
     (12, [("none", "create"), ("break_all_tests", "trim"), ("none", "none")]),
     (12, [("none", "create"), ("break_import", "trim"), ("repair_import", "none"), ("none", "disable")]),
     (12, [("none", "create"), ("alias_reference", "trim"), ("none", "none"), ("none", "disable")]),
